@@ -645,6 +645,49 @@ KINDS = {
     "class": {"oracle": oracle_class, "key": _key, "tags": _tags},
     "scaled": {"impl": impl_scaled, "model": model_scaled, "post": post_scaled, "rtol": 1e-6, "atol": 1e-300, "key": _key, "tags": _tags},
 }
+
+
+# ---- Daniell periodogram: implementation vs Model/Daniell.lean (theorems daniell_scale, daniell_periodogram_scale, daniell_bin_mean)
+
+def impl_daniell(p):
+    from spectrum.periodogram import DaniellPeriodogram, pdaniell
+    x = np.asarray(p["x"])
+    if p.get("cls"):
+        o = pdaniell(x, p["P"], NFFT=p["nfft"], window=p["window"], scale_by_freq=False, detrend=None)
+        return [np.asarray(o.psd)]
+    return [np.asarray(DaniellPeriodogram(x, p["P"], NFFT=p["nfft"], detrend=None, scale_by_freq=False, window=p["window"])[0])]
+
+
+def model_daniell(p):
+    from spectrum.window import create_window
+    x = np.asarray(p["x"])
+    w = np.asarray(create_window(len(x), p["window"]))     # the window's shape is C20's business: taken from the implementation
+    return ("F", proto.request("daniellpg", "F", [0 if np.iscomplexobj(x) else 1, p["nfft"], p["P"]], [x, w]))
+
+
+def oracle_daniell(p):
+    """the scaling law itself on the same case (c not a power of two), in max-norm (per-bin: kind hdr)"""
+    from spectrum.periodogram import DaniellPeriodogram
+    x = np.asarray(p["x"])
+    c = p["c"]
+    kw = dict(NFFT=p["nfft"], detrend=None, scale_by_freq=False, window=p["window"])
+    a = np.asarray(DaniellPeriodogram(x, p["P"], **kw)[0])
+    b = np.asarray(DaniellPeriodogram(c * x, p["P"], **kw)[0])
+    if a.shape != b.shape:
+        return ["DaniellPeriodogram: %d values for x, %d for c*x" % (a.size, b.size)]
+    if a.size == 0:
+        return []           # fewer bins than one averaging window and an even count: the code returns no value at all
+    if not np.max(np.abs(b - abs(c) ** 2 * a)) <= 1e-9 * abs(c) ** 2 * np.max(np.abs(a)):
+        return ["DaniellPeriodogram(c*x) != |c|^2 DaniellPeriodogram(x), c=%r, P=%d, NFFT=%d, window=%s: %.2e" % (
+            c, p["P"], p["nfft"], p["window"], np.max(np.abs(b - abs(c) ** 2 * a)) / (abs(c) ** 2 * np.max(np.abs(a))))]
+    return []
+
+
+KINDS["daniell"] = {"impl": impl_daniell, "model": model_daniell, "oracle": oracle_daniell, "rtol": 1e-9, "atol": 0,
+                    "key": lambda p: "daniell|%d|%d|%s|%s|%d" % (p["P"], p["nfft"], p["window"], bool(p.get("cls")),
+                                                             hash(np.asarray(p["x"]).tobytes()) & 0xFFFFFF),
+                    "tags": lambda p: ["daniell", "daniell:" + ("class" if p.get("cls") else "function"),
+                                       "complex" if np.iscomplexobj(np.asarray(p["x"])) else "real"]}
 KINDS["hdr"] = {"oracle": oracle_hdr, "key": lambda p: _hdr_key(p), "tags": lambda p: _hdr_tags(p)}
 KINDS["hdrar"] = {"oracle": oracle_hdr, "key": lambda p: _hdr_key(p), "tags": lambda p: _hdr_tags(p)}
 
@@ -981,7 +1024,32 @@ def _gen_hdr(nrng, quick):
         yield ("hdrar", {"x": x, "c": _hdr_scalar(nrng, cplx, i + int(nrng.integers(0, 11))), "rec": lab, "fam": "ar2", "ests": _hdrar_ests(N, i + int(nrng.integers(0, 9)))})
 
 
+def _gen_daniell(nrng, quick):
+    wins = ["hamming", "hann", "rectangular", "blackman", "bartlett", "nuttall", "parzen"]
+    for i in range(24 if quick else 160):
+        cplx = bool(i % 2)
+        N = int(nrng.integers(4, 70))
+        x = nrng.standard_normal(N) + 0.8 * np.cos(0.9 * np.arange(N) + 0.3)
+        if cplx:
+            x = x + 1j * nrng.standard_normal(N)
+        if i % 7 == 3:
+            x = np.round(4 * x)                 # small integers (float dtype)
+        nfft = [N, N + 1, 2 * N, 2 * N + 1, N + int(nrng.integers(0, 40))][i % 5]
+        L = nfft if cplx else nfft // 2 + 1
+        P = max(1, [1, 2, 3, int(nrng.integers(1, max(2, L // 2)))][i % 4])      # P = 0: the code divides 0 by 0 at bin 0 (kind hdr)
+        yield ("daniell", {"x": x, "P": P, "nfft": nfft, "window": wins[i % len(wins)], "cls": bool((i // 2) % 3 == 0),
+                           "c": (3.0, -0.7, 37.0, 1.7e-3)[i % 4] if not cplx else (0.6 - 1.1j, 3.0, 6e-4 + 8e-4j)[i % 3]})
+
+
 def gen(rng, nrng, tier):
+    for c_ in _gen0(rng, nrng, tier):
+        yield c_
+    # appended last: the random streams of the cases above are unchanged
+    for c_ in _gen_daniell(nrng, tier == "quick"):
+        yield c_
+
+
+def _gen0(rng, nrng, tier):
     quick = tier == "quick"
     n = 20 if quick else 150
     for i in range(n):
